@@ -7,6 +7,7 @@ from __future__ import annotations
 import numpy as np
 
 from mc.core import Report, viol, collect_samples
+from mc.histories import explore_getter_orders
 from mc.oracles.s2 import sphere_voronoi
 
 from molgri.space.rotobj import SphereGrid3DFactory
@@ -85,6 +86,25 @@ def run_case(case):
     return {"violations": vs, "pairs": N * (N - 1) // 2, "adjacent": int(X.sum() // 2), "degenerate": deg}
 
 
+SG_GETTERS = {"volumes": lambda g: g.get_spherical_voronoi().get_voronoi_volumes(),
+              "volumes_approx": lambda g: g.get_spherical_voronoi().get_voronoi_volumes(approx=True),
+              "adjacency": lambda g: g.get_voronoi_adjacency(), "borders": lambda g: g.get_cell_borders(),
+              "distances": lambda g: g.get_center_distances()}
+
+
+def order_case(case):
+    """all getter words of length <= 3 on ONE grid object: every observation equals the first call on a fresh object"""
+    alg, N = case["alg"], case["N"]
+    import itertools
+    allw = [list(w) for d in (2, 3) for w in itertools.product(SG_GETTERS, repeat=d)]
+    bad, nwords, calls = explore_getter_orders(lambda: SphereGrid3DFactory.create(alg, N), SG_GETTERS, words=allw[case.get("lo", 0):case.get("hi", len(allw))])
+    vs = []
+    for w, pos, g, exp, obs in bad[:3]:
+        vs.append(viol(f"C03|getter_order|{alg}_{N}|word={'>'.join(w[:pos + 1])}", f"{g} after {w[:pos]} on the same grid "
+                       "object differs from the first call on a fresh object", dict(case, word=w), exp, obs))
+    return {"violations": vs, "pairs": 0, "adjacent": 0, "degenerate": 0, "two_face": 0, "words": nwords, "calls": calls}
+
+
 def cases(tier):
     if tier == "quick":
         Ns = list(range(4, 131)) + [161, 162, 163]
@@ -97,7 +117,9 @@ def run(ctx):
     rep = Report(PROPERTY, "exploration")
     cs = cases(ctx.tier)
     res = ctx.pmap(run_case, cs, chunksize=1, recheck=3)
-    for r in res:
+    ocs = [{"order": True, "alg": a, "N": n, "lo": lo, "hi": lo + 15} for lo in range(0, 150, 15) for a, n in [('ico', 13), ('cube3D', 9), ('randomS', 11)]]
+    ores = ctx.pmap(order_case, ocs, chunksize=1, recheck=1)
+    for r in res + ores:
         rep.add_violations(r["violations"])
     rep.coverage = {
         "evaluations": sum(r["pairs"] for r in res),
@@ -107,6 +129,7 @@ def run(ctx):
                 "distinct_nontrivial = distinct grids (all have >= 4 points)",
         "samples": collect_samples([f"{c['alg']}_{c['N']}" for c in cs], 6),
         "grids": len(cs), "adjacent_pairs": sum(r["adjacent"] for r in res),
+        "getter_order_words": sum(r["words"] for r in ores), "getter_order_calls": sum(r["calls"] for r in ores),
         "exhaustive": True, "bound": {"N": "4..130 + 161-163" if ctx.tier == "quick" else "4..330 + 385-387, 641-643, 1000"},
     }
     rep.assumptions = ["tolerance 1e-7 on arcs, angles, areas", "adjacent <=> shared arc longer than 1e-9"]
@@ -114,4 +137,6 @@ def run(ctx):
 
 
 def replay(case):
+    if case.get("order"):
+        return order_case(case)["violations"]
     return run_case(case)["violations"]
